@@ -106,6 +106,8 @@ impl MultiPeerBackend for XPubSocketBackend {
                 },
             )
             .await;
+        #[cfg(feature = "verif-hooks")]
+        crate::verif_hooks::yield_point("xpub.peer_connected.after_upsert").await;
 
         self.fair_queue_inner
             .lock()
@@ -167,6 +169,8 @@ impl SocketSend for XPubSocket {
                     break;
                 }
             }
+            #[cfg(feature = "verif-hooks")]
+            crate::verif_hooks::yield_point("xpub.send.between_subscribers").await;
             iter = subscriber.next_async().await;
         }
         for peer in dead_peers {
